@@ -12,7 +12,7 @@ Demo(ts, ops, threads, onlyinit) ==
                          "alloc_membind", "get_area_memlocation"} ELSE {},
    KAllowed |-> {1, 2, 3, 4, 9}, KMems |-> {1}, ThreadsC |-> threads, Ops |-> ops,
    CpuFam |-> SUBSET {1, 2, 7, 8}, NodeFam |-> SUBSET {1, 2, 7}, CpuFlagsC |-> 0..16, MemFlagsC |-> {0, 1, 2, 32, 33, 34, 36, 64},
-   Pols |-> -1..6, Lens |-> {0, 1}, LoadComps |-> {"x86"}, OnlyInit |-> onlyinit]
+   Pols |-> -1..6, Lens |-> {0, 1}, LoadComps |-> {"x86"}, OnlyInit |-> onlyinit, Twin |-> ~onlyinit]
 CpuOps == {"set_cpubind", "get_cpubind", "set_proc_cpubind", "get_proc_cpubind", "set_thread_cpubind", "get_thread_cpubind",
            "get_last_cpu_location", "get_proc_last_cpu_location"}
 MemOps == {"set_membind", "get_membind", "set_proc_membind", "get_proc_membind", "set_area_membind", "get_area_membind",
